@@ -11,7 +11,7 @@ from typing import Dict, List, Optional, Set, Tuple
 from ..cfg import CFG
 from ..model import AnchorError, Program, dotted, last_attr, norm, parent, walk_no_nested
 from ..report import Check
-from .common import calls_in, guards_of, local_assignments, stmt_of
+from .common import calls_in, guards_of, local_assignments, need_locals, stmt_of
 
 
 def _mentions(e: ast.AST, text: str) -> bool:
@@ -122,6 +122,10 @@ def r11_1(prog: Program, chk: Check) -> None:
     first = [s for s in fn.body if not (isinstance(s, ast.Expr) and isinstance(s.value, ast.Constant))][0]
     ok = isinstance(first, ast.If) and "caught_errors" in norm(first.test) and isinstance(first.body[-1], ast.Return)
     chk.ob("R11.1", "node_visitor::BaseNodeVisitor.show_error::buffering-arm-first", ok, prog.site("node_visitor", first), "the caught_errors buffering arm must come first and return")
+
+
+def _guard_names(prog: Program) -> None:
+    need_locals(prog.func("node_visitor", "BaseNodeVisitor.show_error"), "lines", "lineno", "this_line", "prev_line", "ignore_comment", "error_code")
 
 
 def r11_2(prog: Program, chk: Check) -> None:
@@ -364,6 +368,7 @@ def r11_6(prog: Program, chk: Check) -> None:
 
 
 def run(prog: Program, chk: Check) -> None:
+    _guard_names(prog)
     r11_1(prog, chk)
     r11_2(prog, chk)
     r11_3(prog, chk)
